@@ -35,13 +35,23 @@ def key_kind(F, X, e):
             b = F.by_cdef.get(a[1])
             if b is not None:
                 consts = set()
-                for bi in sorted(b.reachable):
-                    for c in b.calls:
-                        for arg in c.args:
-                            ro = lib.root_operand(b, arg)
-                            if ro["k"] == "const" and ro.get("v", "").startswith('"'):
-                                consts.add(ro["v"].strip('"'))
-                    break
+                for c in b.calls:
+                    for arg in c.args:
+                        ro = lib.root_operand(b, arg)
+                        if ro["k"] == "const" and ro.get("v", "").startswith('"'):
+                            consts.add(ro["v"].strip('"'))
+                # also every string constant the returned value is built from (to_string()/into()/format! forms)
+                try:
+                    rexpr = strip(X.local(b, 0))
+                    for y in walk(rexpr):
+                        if y[0] == "const" and isinstance(y[1], str) and y[1].startswith('"'):
+                            consts.add(y[1].strip('"'))
+                except RecursionError:
+                    pass
+                for bi2 in sorted(b.reachable):
+                    for st in b.blocks[bi2]["s"]:
+                        if st["k"] == "assign" and st["rv"]["k"] == "use" and st["rv"]["op"].get("k") == "const" and str(st["rv"]["op"].get("v", "")).startswith('"'):
+                            consts.add(st["rv"]["op"]["v"].strip('"'))
                 hexed = any(c.name == "hex::ToHex::encode_hex" for c in b.calls)
                 kind = "state" if "state" in consts and "attempts" not in consts else ("attempt" if "attempts" in consts else "?")
                 return kind, (a[2][0] if a[2] else None), (a[2][1] if len(a[2]) > 1 else None), consts, hexed
@@ -466,6 +476,18 @@ def m_modes_vs_images(C, rep, rid):
                 fresh = w.key_id is not None and any(x[0] == "call" and x[1] == "std::time::SystemTime::now" for x in walk(w.key_id))
                 rep.ob(rid, fresh, meth["add_payment_attempt"]["root"], "must-create attempt key is fresh (clock derived)", where=w.call.loc, how=show(w.key_id)[:60] if w.key_id else "?",
                        detail="" if fresh else "attempt key %s is created with must-create but is not fresh: a second attempt for the hash fails forever" % (show(w.key_id)[:60] if w.key_id else "?"))
+        # every write's failure is propagated and no success return skips a later write
+        for m in ("add_payment_attempt", "mark_failed", "mark_succeeded"):
+            b = meth[m]["wbody"]
+            if b is None:
+                continue
+            oks = _ok_return_blocks(b)
+            for i, w in enumerate(seqs[m]):
+                cont = getattr(w, "cont", None)
+                for ob in oks:
+                    okd = cont is not None and b.node_cut({cont}, ob)
+                    rep.ob(rid, okd, meth[m]["root"], "%s reports success only after its write #%d succeeded" % (m, i), where=w.call.loc, how="Ok(..) dominated by the write's success arm",
+                           detail="" if okd else "%s can return Ok although its write #%d (%s key) failed or was skipped: the caller believes the stored image changed when it did not" % (m, i, w.key_kind))
         res = explore_images(seqs)
         rep.ob(rid, True, d["self_ty"], "image exploration", how="%d reachable images, %d method runs" % (len(res["images"]), res["runs"]), nontrivial=False)
         for (img, m, idx, why) in res["wedges"]:
